@@ -16,6 +16,9 @@ pub enum GT {
     TVar(String),
     // a value-dependent identity: (i : index) -> (if cond(i) then int else bool) -> (same)
     Dep(DepKind),
+    // the type of a definition that the type-directed machinery never uses (its annotation is
+    // produced together with its definition)
+    Opaque,
 }
 
 #[derive(Clone, Copy, Debug, PartialEq, Eq)]
@@ -34,7 +37,7 @@ impl DepKind {
     fn cond(self, index: H) -> H {
         match self {
             DepKind::BoolIndexed => index,
-            DepKind::IntIndexed(op, k) => H::Bin([Op::Lt, Op::Le, Op::Eq, Op::Gt, Op::Ge][op as usize % 5], hb(index), hb(H::lit(k))),
+            DepKind::IntIndexed(op, k) => H::Bin([Op::Lt, Op::Le, Op::Eq, Op::Gt, Op::Ge][op as usize % 5], hb(index), hb(if k < 0 { H::Neg(hb(H::lit(-k))) } else { H::lit(k) })),
         }
     }
     fn holds(self, v: i64) -> bool {
@@ -213,6 +216,7 @@ impl<'a> ProgGen<'a> {
                 let fam = || k.family(H::Var(i.clone()));
                 H::Pi(i.clone(), false, hb(k.index_type()), hb(H::Pi("_".into(), false, hb(fam()), hb(fam()))))
             }
+            GT::Opaque => H::Type,
             GT::Arrow(d, c) => {
                 let dh = self.ty_h(d);
                 if self.r.chance(1, 8) {
@@ -444,6 +448,7 @@ impl<'a> ProgGen<'a> {
                 self.ctx.pop();
                 H::Lam(a.clone(), false, Some(hb(H::Type)), hb(body))
             }
+            GT::Opaque => H::Type,
             GT::Dep(k) => {
                 let i = self.fresh_name("ix");
                 let x = self.fresh_name("dx");
@@ -519,7 +524,7 @@ impl<'a> ProgGen<'a> {
                 self.ctx.pop();
                 H::Lam(a.clone(), false, Some(hb(H::Type)), hb(body))
             }
-            GT::TVar(_) | GT::Dep(_) => self.leaf(t),
+            GT::TVar(_) | GT::Dep(_) | GT::Opaque => self.leaf(t),
         }
     }
 
@@ -576,12 +581,36 @@ impl<'a> ProgGen<'a> {
         } else {
             for i in (0..chain).rev() {
                 let def = if i + 1 < chain { H::Var(alias_names[i + 1].clone()) } else { concrete.clone() };
-                defs.push((alias_names[i].clone(), Some(hb(H::Type)), def));
+                let ann = if self.cfg.mode == Mode::Inferred && self.r.chance(1, 2) { None } else { Some(hb(H::Type)) };
+                defs.push((alias_names[i].clone(), ann, def));
             }
         }
         let extra_reserved = extra.is_some();
         if let Some((n, _, ann, def)) = extra {
             defs.push((n, ann, def));
+        }
+        // a function whose parameter is typed by the first alias (unfolded one binder deeper),
+        // applied to the aliased value
+        let mut body = H::Var(v.clone());
+        if *t == GT::Int && self.r.chance(1, 2) {
+            self.feature("alias-unfolded-under-binder");
+            let f = self.fresh_name("inc");
+            let y = self.fresh_name("y");
+            let a0 = H::Var(alias_names[0].clone());
+            let ann = if self.cfg.mode == Mode::Inferred && self.r.chance(1, 2) { None } else { Some(hb(H::Pi("_".into(), false, hb(a0.clone()), hb(H::Int)))) };
+            defs.push((f.clone(), ann, H::Lam(y.clone(), false, Some(hb(a0)), hb(H::Bin(Op::Add, hb(H::Var(y)), hb(H::lit(1)))))));
+            body = H::App(hb(H::Var(f)), hb(H::Var(v.clone())));
+        }
+        // sometimes the aliases are typed by an alias of the universe itself
+        if self.r.chance(1, 4) {
+            self.feature("alias-of-the-universe");
+            let u = self.fresh_name("univ");
+            for d in defs.iter_mut().skip(1).take(chain) {
+                if d.1.is_some() {
+                    d.1 = Some(hb(H::Var(u.clone())));
+                }
+            }
+            defs.insert(1, (u, Some(hb(H::Type)), H::Type));
         }
         for _ in 0..=chain {
             self.ctx.pop();
@@ -589,7 +618,7 @@ impl<'a> ProgGen<'a> {
         if extra_reserved {
             self.ctx.pop();
         }
-        let mut h = H::Var(v);
+        let mut h = body;
         for (nm, ann, def) in defs.into_iter().rev() {
             h = H::Let(nm, ann, hb(def), hb(h));
         }
@@ -598,7 +627,7 @@ impl<'a> ProgGen<'a> {
 
     pub fn group(&mut self, t: &GT, d: usize) -> H {
         let inhabited = !matches!(t, GT::TVar(_)) || self.candidates(t).iter().any(|c| c.1.is_empty());
-        if self.cfg.type_level && self.cfg.mode == Mode::Explicit && !matches!(t, GT::Type | GT::Forall(..)) && inhabited && self.r.chance(1, 8) {
+        if self.cfg.type_level && !matches!(t, GT::Type | GT::Forall(..) | GT::Dep(_)) && inhabited && self.r.chance(1, 8) {
             return self.alias_typed_group(t, d);
         }
         self.feature("definition-group");
@@ -610,6 +639,7 @@ impl<'a> ProgGen<'a> {
             MutualB,
             Poly(u8),
             DepFn(DepKind),
+            DepCoerce,
             Alias(GT),
             AliasedValue(usize), // value whose annotation is the alias defined at that (possibly later) index
         }
@@ -623,6 +653,7 @@ impl<'a> ProgGen<'a> {
                     kinds.push(Kind::MutualB);
                 }
                 3 | 4 => kinds.push(Kind::Poly(self.r.below(5) as u8)),
+                8 if self.cfg.type_level => kinds.push(Kind::DepCoerce),
                 7 if self.cfg.type_level => {
                     let k = if self.r.chance(1, 2) { DepKind::BoolIndexed } else { DepKind::IntIndexed(self.r.below(5) as u8, self.r.range(-2, 3)) };
                     kinds.push(Kind::DepFn(k));
@@ -669,6 +700,7 @@ impl<'a> ProgGen<'a> {
                     }
                 }
                 Kind::DepFn(k) => ("dep", GT::Dep(*k)),
+                Kind::DepCoerce => ("coerce", GT::Opaque),
                 Kind::Alias(_) => ("t", GT::Type),
                 Kind::AliasedValue(j) => match &kinds[*j] {
                     Kind::Alias(t) => ("aliased", t.clone()),
@@ -695,7 +727,7 @@ impl<'a> ProgGen<'a> {
         // a syntactic value may mention any *function-valued* definition of the group; any other
         // definition may mention earlier definitions and later function-valued ones whose bodies
         // mention only function-valued definitions. Annotations may mention every alias.
-        let is_fn: Vec<bool> = kinds.iter().map(|k| matches!(k, Kind::RecFn | Kind::MutualA | Kind::MutualB | Kind::Poly(_) | Kind::DepFn(_))).collect();
+        let is_fn: Vec<bool> = kinds.iter().map(|k| matches!(k, Kind::RecFn | Kind::MutualA | Kind::MutualB | Kind::Poly(_) | Kind::DepFn(_) | Kind::DepCoerce)).collect();
         let mut defs: Vec<(String, Option<Box<H>>, H)> = vec![];
         for i in 0..n {
             // annotation: every alias of the group is usable there (forward references in types)
@@ -703,6 +735,7 @@ impl<'a> ProgGen<'a> {
                 self.ctx[base + j].usable = matches!(kinds[j], Kind::Alias(_));
             }
             let ann = match &kinds[i] {
+                Kind::DepCoerce => None,
                 Kind::AliasedValue(j) => {
                     self.feature("forward-type-alias");
                     Some(hb(H::Var(names[*j].clone())))
@@ -753,6 +786,12 @@ impl<'a> ProgGen<'a> {
                     let body = H::If(hb(H::Bin(Op::Le, hb(H::Var(p.clone())), hb(H::lit(0)))), hb(base_val.clone()), hb(H::If(hb(H::Bin(Op::Gt, hb(H::Var(p.clone())), hb(H::lit(40)))), hb(base_val), hb(call))));
                     H::Lam(p, false, Some(hb(H::Int)), hb(body))
                 }
+                Kind::DepCoerce => {
+                    self.feature("dependent-coercion-with-stuck-index");
+                    let (ann, def) = self.dep_coerce();
+                    defs.push((names[i].clone(), Some(hb(ann)), def));
+                    continue;
+                }
                 Kind::DepFn(k) => {
                     self.feature("dependent-family-definition");
                     let i = self.fresh_name("ix");
@@ -787,6 +826,39 @@ impl<'a> ProgGen<'a> {
             h = H::Let(nm, ann, hb(def), hb(h));
         }
         h
+    }
+
+    // (n : int) -> F(e1) -> F(e2) = (n : int) => (x : F(e1)) => x  where F(i) = if i <cmp> k then
+    // int else bool and e1, e2 are stuck integer expressions over n that are convertible (they
+    // differ only in closed literal subterms, e.g. `n / 2` and `n / (1 + 1)`) but not identical.
+    fn dep_coerce(&mut self) -> (H, H) {
+        let n = self.fresh_name("n");
+        self.ctx.push(Entry { name: n.clone(), ty: GT::Int, alias_of: None, usable: false, recursive_fn: false });
+        let x = self.fresh_name("x");
+        self.ctx.pop();
+        let k = 1 + self.r.below(6) as i64;
+        let lit_variants = |r: &mut Rng, k: i64| -> H {
+            match r.below(4) {
+                0 => H::lit(k),
+                1 => H::Bin(Op::Add, hb(H::lit(k - 1)), hb(H::lit(1))),
+                2 => H::Bin(Op::Sub, hb(H::lit(k + 3)), hb(H::lit(3))),
+                _ => H::Bin(Op::Mul, hb(H::lit(1)), hb(H::lit(k))),
+            }
+        };
+        let op = [Op::Add, Op::Sub, Op::Mul, Op::Div][self.r.usize(4)];
+        let left = self.r.chance(1, 2);
+        let mk = |r: &mut Rng| -> H {
+            let l = lit_variants(r, k);
+            let nv = H::Var(n.clone());
+            if left { H::Bin(op, hb(nv), hb(l)) } else { H::Bin(op, hb(l), hb(nv)) }
+        };
+        let (e1, e2) = (mk(self.r), mk(self.r));
+        let cmp = [Op::Lt, Op::Le, Op::Eq, Op::Gt, Op::Ge][self.r.usize(5)];
+        let c0 = self.r.below(5) as i64;
+        let fam = |e: H| H::If(hb(H::Bin(cmp, hb(e), hb(H::lit(c0)))), hb(H::Int), hb(H::Bool));
+        let ann = H::Pi(n.clone(), false, hb(H::Int), hb(H::Pi("_".into(), false, hb(fam(e1.clone())), hb(fam(e2)))));
+        let def = H::Lam(n, false, Some(hb(H::Int)), hb(H::Lam(x.clone(), false, Some(hb(fam(e1))), hb(H::Var(x)))));
+        (ann, def)
     }
 
     // The canonical implementation of a polymorphic type built from type abstractions and arrows.
@@ -888,6 +960,7 @@ pub fn type_to_h(t: &GT) -> H {
         GT::TVar(a) => H::Var(a.clone()),
         GT::Arrow(d, c) => H::Pi("_".into(), false, hb(type_to_h(d)), hb(type_to_h(c))),
         GT::Forall(a, b) => H::Pi(a.clone(), false, hb(H::Type), hb(type_to_h(b))),
+        GT::Opaque => H::Type,
         GT::Dep(k) => {
             let fam = || k.family(H::var("ix"));
             H::Pi("ix".into(), false, hb(k.index_type()), hb(H::Pi("_".into(), false, hb(fam()), hb(fam()))))
